@@ -253,13 +253,13 @@ PROPS = {
         level="exploration",
         engine="simnet",
         technique="runtime monitoring of the simulated wire during exactly one tx_rx / tx_rx_sync_system_time / tx_rx_dc call: the LRW datagrams must tile the group's logical window, the DC datagram must be first and unique, image/working counter/state list are compared with what the simulated devices hold and answered; a deterministic lock turns a self-deadlock into an observable event",
-        level_text=("Groups built by the real init on simulated devices whose PDO sizes give the wanted (inputs, outputs) split: image 0..2048 bytes incl. 1486/1487/1500 around the single-frame limit, splits {0, 1, mid, all}, 0..64 devices, frame sizes 50..1514 chosen around every boundary where image, DC datagram and state checks meet the frame end (+-2 bytes), all three cycle variants, random image and device answers; in half of the cycles the segment returns other bytes than were sent in every byte of the logical datagrams that no device supplied (the outputs). "
+        level_text=("Groups built by the real init on simulated devices whose PDO sizes give the wanted (inputs, outputs) split: image 0..2048 bytes incl. 1486/1487/1500 around the single-frame limit, splits {0, 1, mid, all}, 0..64 devices, frame sizes 50..1514 chosen around every boundary where image, DC datagram and state checks meet the frame end (+-2 bytes), all three cycle variants, random image and device answers; in half of the cycles the segment returns other bytes than were sent in every byte of the logical datagrams that no device supplied (the outputs); in a fifth of the cycles one SubDevice services nothing (its status read comes back unanswered and must still have its entry). "
                     "Held = contiguous tiling without gap/overlap, every datagram fits the frame, exactly one FRMW(ref, 0x0910, 8) first in DC variants with the returned time equal to the reference clock's answer, inputs == network answer, outputs unchanged and == bytes on the wire, working counter == sum over LRW datagrams, one state entry per SubDevice in group order, frame count within the packing bound, and the call returns (no self-deadlock, no hang)."),
         level_note="Frame sizes below 50 bytes cannot carry ethercrab's own init traffic and are therefore not reachable. The frame-count bound is the greedy packer's upper bound, no tighter claim.",
         rule="case = (image length, split, devices, frame size, variant); non-trivial = at least 2 frames or a non-empty image; distinct by scenario hash",
         assumptions=[],
         min_distinct=dict(quick=300, thorough=30000),
-        required_counters=["multi_frame_cycles", "cycles_with_foreign_bytes_in_unread_answer", "variant.tx_rx", "variant.tx_rx_sync_system_time", "variant.tx_rx_dc", "frames"],
+        required_counters=["multi_frame_cycles", "cycles_with_foreign_bytes_in_unread_answer", "cycles_with_a_silent_subdevice", "variant.tx_rx", "variant.tx_rx_sync_system_time", "variant.tx_rx_dc", "frames"],
         runs=[native("cycle-release", "c07", "release"), native("cycle-debug", "c07", "debug", args={"scale-pct": dict(quick=15, thorough=3)})],
     ),
 
